@@ -338,8 +338,10 @@ class Sampler2D(DaeObject):
         """Saves the sampler data back to :attr:`xmlnode`"""
         samplernode = self.xmlnode.find(tag('sampler2D'))
         sourcenode = samplernode.find(tag('source'))
-        _correctValInNode(samplernode, 'minfilter', self.minfilter or None)
-        _correctValInNode(samplernode, 'magfilter', self.magfilter or None)
+        order = ['source', 'wrap_s', 'wrap_t', 'minfilter', 'magfilter', 'mipfilter', 'border_color',
+                 'mipmap_maxlevel', 'mipmap_bias', 'extra']
+        _correctValInNode(samplernode, 'minfilter', self.minfilter or None, order)
+        _correctValInNode(samplernode, 'magfilter', self.magfilter or None, order)
         sourcenode.text = self.surface.id
         self.xmlnode.set('sid', self.id)
 
